@@ -88,6 +88,7 @@ struct Proc<P: 'static> {
     fut_h: Vec<usize>,
     oid: u32,
     quarantine: Vec<(*mut u8, std::alloc::Layout)>,
+    drains: u64,
 }
 
 fn gu(v: &Value, k: &str) -> u64 {
@@ -142,7 +143,7 @@ impl<P: Payload> Proc<P> {
         self.oid += 1;
         let oid = (self.pi as u32 + 1) * 1000 + self.oid;
         let extra = format!(
-            "\"o\":{},\"op\":\"{}\",\"sd\":\"{}\",\"hc\":\"{}\",\"h\":{},\"m\":{},\"d\":{},\"f\":{},\"w\":{},\"pre\":{},\"spare\":{},\"none\":{}",
+            "\"o\":{},\"op\":\"{}\",\"sd\":\"{}\",\"hc\":\"{}\",\"h\":{},\"m\":{},\"d\":{},\"f\":{},\"w\":{},\"pre\":{},\"spare\":{},\"none\":{},\"pv\":{:?}",
             oid,
             name,
             side,
@@ -154,7 +155,8 @@ impl<P: Payload> Proc<P> {
             if gu(op, "w") > 0 { self.pi as u64 * 4 + gu(op, "w") } else { 0 },
             gu(op, "pre"),
             gu(op, "spare"),
-            gu(op, "none") == 1
+            gu(op, "none") == 1,
+            self.pre_ids(op)
         );
         sched::point(sched::H_BEGIN, 0, oid as u64, 0);
         sched::annotate(extra);
@@ -171,6 +173,16 @@ impl<P: Payload> Proc<P> {
             r.opt
         );
         sched::record(sched::H_END, 0, oid as u64, 0, Some(extra));
+    }
+
+    /// identities of the values a drain_into target vector already holds
+    fn pre_ids(&self, op: &Value) -> Vec<u64> {
+        let pre = gu(op, "pre");
+        if gs(op, "op") != "drain_into" {
+            return vec![];
+        }
+        let base = if P::NAME == "u8" { 200 } else { 1000 + 100 * self.pi as u64 + 8 * self.drains };
+        (0..pre).map(|k| P::id_of((base + k) as u32)).collect()
     }
 
     fn set_cur(&self, h: usize) {
@@ -371,9 +383,13 @@ impl<P: Payload> Proc<P> {
                 let pre = gu(op, "pre") as usize;
                 let spare = gu(op, "spare") as usize;
                 let mut vec: Vec<P> = Vec::with_capacity(pre + spare);
-                for i in 0..pre {
-                    vec.push(P::make(200 + i as u32));
+                {
+                    let base = if P::NAME == "u8" { 200 } else { 1000 + 100 * self.pi as u64 + 8 * self.drains };
+                    for k in 0..pre as u64 {
+                        vec.push(P::make((base + k) as u32));
+                    }
                 }
+
                 let oid = self.begin(op, &name, side, hcode);
                 let mut r = self.call(|me| {
                     let s = me.hs[h].sr().unwrap();
@@ -384,6 +400,7 @@ impl<P: Payload> Proc<P> {
                 });
                 r.vs = vec.iter().map(|x| x.id()).collect();
                 self.end(oid, &r);
+                self.drains += 1;
                 drop(vec);
             }
             "iter_next" => {
@@ -708,7 +725,7 @@ pub fn run<P: Payload>(prog: &Value, strat: Strat) -> RunResult {
                     let marker = 0u8;
                     sched::stack_region(pi, &marker as *const u8 as usize, 1 << 20);
                     sched::thread_start(pi);
-                    let mut pr = Proc::<P> { pi, hs: hs.0, futs: vec![], fut_h: vec![], oid: 0, quarantine: vec![] };
+                    let mut pr = Proc::<P> { pi, hs: hs.0, futs: vec![], fut_h: vec![], oid: 0, quarantine: vec![], drains: 0 };
                     for op in &ops {
                         pr.exec(op);
                     }
@@ -744,7 +761,7 @@ pub fn run<P: Payload>(prog: &Value, strat: Strat) -> RunResult {
                 let oid = (pi as u32 + 1) * 1000 + 1;
                 sched::point(sched::H_BEGIN, 0, oid as u64, 0);
                 sched::annotate(format!(
-                    "\"o\":{},\"op\":\"close\",\"sd\":\"{}\",\"hc\":\"\",\"h\":0,\"m\":0,\"d\":0,\"f\":0,\"w\":0,\"pre\":0,\"spare\":0,\"none\":false",
+                    "\"o\":{},\"op\":\"close\",\"sd\":\"{}\",\"hc\":\"\",\"h\":0,\"m\":0,\"d\":0,\"f\":0,\"w\":0,\"pre\":0,\"spare\":0,\"none\":false,\"pv\":[]",
                     oid,
                     if k <= 2 { "s" } else { "r" }
                 ));
